@@ -97,3 +97,52 @@ package cache
 //@   loop 0
 //@     invariant hand: hand != nil && hand.owner == s.queue
 //@     invariant entry: typeof(hand.Value) == K && hand.Value.(K) in s.store && entry == s.store[hand.Value.(K)] && entry != nil
+
+// ---- NonExpiringMapCache ------------------------------------------------------------------------------
+
+//@ pure func hasN(s *NonExpiringMapCache[K,V], k K) bool { k in s.store }
+//@ pure func valN(s *NonExpiringMapCache[K,V], k K) V { s.store[k] }
+//@ pure func invN(s *NonExpiringMapCache[K,V]) bool {
+//@   s.stats.size != nil && s.stats.hits != nil && s.stats.misses != nil
+//@   && s.stats.hits != s.stats.size && s.stats.misses != s.stats.size
+//@   && s.store != nil && len(s.store) == s.stats.size.val
+//@   && (len(s.store) <= s.stats.Capacity || len(s.store) == 0)
+//@ }
+
+//@ monitor NonExpiringMapCache.rwLock
+//@   guards NonExpiringMapCache.store, contents(NonExpiringMapCache.store)
+
+//@ func NewNonExpiringMapCache(capacity int) Cache[K, V]
+//@   nomod
+//@   ensures isMap: typeof(result) == *NonExpiringMapCache[K,V]
+//@   ensures inv: invN(result.(*NonExpiringMapCache[K,V]))
+//@   ensures empty: forall k K :: !hasN(result.(*NonExpiringMapCache[K,V]), k)
+//@   ensures cap: result.(*NonExpiringMapCache[K,V]).stats.Capacity == capacity
+//@   ensures unlocked: held(result.(*NonExpiringMapCache[K,V]).rwLock, 0)
+
+//@ func (s *NonExpiringMapCache[K,V]) Put(key K, value V)
+//@   requires s != nil && held(s.rwLock, 0) && invN(s)
+//@   modifies s.rwLock.state, contents(s.store), s.stats.size.val
+//@   ensures inv: invN(s)
+//@   ensures unlocked: held(s.rwLock, 0)
+//@   ensures update: old(hasN(s, key)) ==> hasN(s, key) && valN(s, key) == value
+//@   ensures insert: !old(hasN(s, key)) && old(len(s.store)) < s.stats.Capacity ==> hasN(s, key) && valN(s, key) == value
+//@   ensures full: !old(hasN(s, key)) && old(len(s.store)) >= s.stats.Capacity ==> !hasN(s, key)
+//@   ensures others: forall j K :: j != key ==> hasN(s, j) == old(hasN(s, j)) && (hasN(s, j) ==> valN(s, j) == old(valN(s, j)))
+
+//@ func (s *NonExpiringMapCache[K,V]) Get(key K) (V, bool)
+//@   requires s != nil && held(s.rwLock, 0) && invN(s)
+//@   modifies s.rwLock.state, s.stats.hits.val, s.stats.misses.val
+//@   ensures inv: invN(s)
+//@   ensures unlocked: held(s.rwLock, 0)
+//@   ensures found: result.1 == hasN(s, key)
+//@   ensures value: hasN(s, key) ==> result.0 == valN(s, key)
+//@   ensures unchanged: forall j K :: hasN(s, j) == old(hasN(s, j)) && (hasN(s, j) ==> valN(s, j) == old(valN(s, j)))
+
+//@ func (s *NonExpiringMapCache[K,V]) Delete(key K)
+//@   requires s != nil && held(s.rwLock, 0) && invN(s)
+//@   modifies s.rwLock.state, contents(s.store), s.stats.size.val
+//@   ensures inv: invN(s)
+//@   ensures unlocked: held(s.rwLock, 0)
+//@   ensures gone: !hasN(s, key)
+//@   ensures others: forall j K :: j != key ==> hasN(s, j) == old(hasN(s, j)) && (hasN(s, j) ==> valN(s, j) == old(valN(s, j)))
